@@ -14,6 +14,8 @@ BIN = os.path.join(WORK, "bin")
 LEAN = os.path.join(VERIF, "lean")
 ALLOWED_AXIOMS = {"propext", "Classical.choice", "Quot.sound"}
 
+# results may nest deeply (a namespace chain of several hundred levels comes back as nested JSON)
+sys.setrecursionlimit(20000)
 ENV = dict(os.environ)
 ENV.update(GOFLAGS="-mod=mod", GOPROXY="off", GOSUMDB="off", GOTOOLCHAIN="local",
            CARGO_NET_OFFLINE="true", PIP_NO_INDEX="1")
